@@ -20,21 +20,25 @@ var intrinsics map[string]handler
 func init() {
 	intrinsics = map[string]handler{
 		// ---- reflect ----
-		"reflect.ValueOf":             hReflectValueOf,
-		"reflect.TypeOf":              hReflectTypeOf,
-		"reflect.Indirect":            hReflectIndirect,
-		"reflect.New":                 hReflectNew,
-		"reflect.DeepEqual":           hReflectDeepEqual,
-		"(reflect.Value).Kind":        hRVKind,
-		"(reflect.Value).IsNil":       hRVIsNil,
-		"(reflect.Value).IsValid":     hRVIsValid,
-		"(reflect.Value).Elem":        hRVElem,
-		"(reflect.Value).Set":         hRVSet,
-		"(reflect.Value).Interface":   hRVInterface,
-		"(reflect.Value).Type":        hRVType,
-		"(reflect.Value).FieldByName": hRVFieldByName,
-		"(reflect.Value).Len":         hRVLen,
-		"(reflect.Kind).String":       func(m *Machine, fr *frame, fn *ssa.Function, a []Value) Value { return "kind" },
+		"reflect.ValueOf":              hReflectValueOf,
+		"reflect.TypeOf":               hReflectTypeOf,
+		"reflect.Indirect":             hReflectIndirect,
+		"reflect.New":                  hReflectNew,
+		"reflect.DeepEqual":            hReflectDeepEqual,
+		"(reflect.Value).Kind":         hRVKind,
+		"(reflect.Value).IsNil":        hRVIsNil,
+		"(reflect.Value).IsValid":      hRVIsValid,
+		"(reflect.Value).Elem":         hRVElem,
+		"(reflect.Value).Set":          hRVSet,
+		"(reflect.Value).Interface":    hRVInterface,
+		"(reflect.Value).Type":         hRVType,
+		"(reflect.Value).FieldByName":  hRVFieldByName,
+		"(reflect.Value).Len":          hRVLen,
+		"(reflect.Value).IsZero":       hRVIsZero,
+		"(reflect.Value).FieldByIndex": hRVFieldByIndex,
+		"(reflect.Value).Field":        hRVField,
+		"(reflect.Value).NumField":     hRVNumField,
+		"(reflect.Kind).String":        func(m *Machine, fr *frame, fn *ssa.Function, a []Value) Value { return "kind" },
 		// ---- sync ----
 		"(*sync.Mutex).Lock":       hMutexLock,
 		"(*sync.Mutex).Unlock":     hMutexUnlock,
@@ -54,6 +58,14 @@ func init() {
 		"(*sync.Pool).Get":         hPoolGet,
 		"(*sync.Pool).Put":         hPoolPut,
 		"(*sync.Once).Do":          hOnceDo,
+		// sync.Map: a linearizable key/value store (each method one atomic step)
+		"(*sync.Map).Load":          hSyncMap,
+		"(*sync.Map).Store":         hSyncMap,
+		"(*sync.Map).LoadOrStore":   hSyncMap,
+		"(*sync.Map).LoadAndDelete": hSyncMap,
+		"(*sync.Map).Delete":        hSyncMap,
+		"(*sync.Map).Swap":          hSyncMap,
+		"(*sync.Map).Range":         hSyncMap,
 		// ---- atomic ----
 		"sync/atomic.LoadInt32":           hAtomicLoad,
 		"sync/atomic.LoadInt64":           hAtomicLoad,
@@ -428,6 +440,103 @@ func hRVIsValid(m *Machine, fr *frame, fn *ssa.Function, a []Value) Value {
 	return m.C.BoolC(a[0].(RValue).Valid)
 }
 
+// isZeroVal: v (of static type t) equals the zero value of t - reflect.Value.IsZero, as a (possibly symbolic) Bool.
+func (m *Machine) isZeroVal(fr *frame, t types.Type, v Value) T {
+	switch u := t.Underlying().(type) {
+	case *types.Struct:
+		r := m.C.BoolC(true)
+		s := v.(Struct)
+		for i := 0; i < u.NumFields(); i++ {
+			r = m.C.And(r, m.isZeroVal(fr, u.Field(i).Type(), s[i]))
+		}
+		return r
+	case *types.Array:
+		r := m.C.BoolC(true)
+		for _, e := range v.(Array) {
+			r = m.C.And(r, m.isZeroVal(fr, u.Elem(), e))
+		}
+		return r
+	case *types.Pointer, *types.Slice, *types.Map, *types.Chan, *types.Signature, *types.Interface:
+		return m.C.BoolC(m.isNilObject(v) || isNilRef(v))
+	}
+	return m.equals(fr, v, m.zero(t))
+}
+
+func isNilRef(v Value) bool {
+	switch x := v.(type) {
+	case *Value:
+		return x == nil
+	case Slice:
+		return x.Arr == nil
+	case *MapObj:
+		return x == nil
+	case *ChanObj:
+		return x == nil
+	case Iface:
+		return x.T == nil
+	case nil:
+		return true
+	}
+	return isNilFunc(v)
+}
+
+func hRVIsZero(m *Machine, fr *frame, fn *ssa.Function, a []Value) Value {
+	v := a[0].(RValue)
+	if !v.Valid {
+		m.reflectPanic(fr, "reflect: call of reflect.Value.IsZero on zero Value")
+	}
+	return m.isZeroVal(fr, v.T, v.V)
+}
+
+func (m *Machine) rvField(fr *frame, v RValue, i int, what string) RValue {
+	st, ok := v.T.Underlying().(*types.Struct)
+	if !ok || !v.Valid {
+		m.reflectPanic(fr, "reflect: call of reflect.Value.%s on %v Value", what, v.T)
+	}
+	if i < 0 || i >= st.NumFields() {
+		m.reflectPanic(fr, "reflect: Field index out of range")
+	}
+	f := st.Field(i)
+	r := RValue{T: f.Type(), V: copyVal(v.V.(Struct)[i]), Valid: true, RO: v.RO || !f.Exported()}
+	if v.Addr != nil {
+		as := (*v.Addr).(Struct)
+		r.Addr = &as[i]
+	}
+	return r
+}
+
+func hRVField(m *Machine, fr *frame, fn *ssa.Function, a []Value) Value {
+	return m.rvField(fr, a[0].(RValue), int(m.concretize(a[1].(T), true)), "Field")
+}
+
+func hRVNumField(m *Machine, fr *frame, fn *ssa.Function, a []Value) Value {
+	v := a[0].(RValue)
+	st, ok := v.T.Underlying().(*types.Struct)
+	if !ok {
+		m.reflectPanic(fr, "reflect: call of reflect.Value.NumField on %v Value", v.T)
+	}
+	return m.C.BVC(uint64(st.NumFields()), 64)
+}
+
+func hRVFieldByIndex(m *Machine, fr *frame, fn *ssa.Function, a []Value) Value {
+	v := a[0].(RValue)
+	ix := a[1].(Slice)
+	for k := 0; k < ix.Len; k++ {
+		i := int(m.concretize(ix.Arr.Elems[ix.Off+k].(T), true))
+		if k > 0 {
+			// step through a pointer to an embedded struct
+			if pv, ok := v.V.(*Value); ok {
+				if pv == nil {
+					m.reflectPanic(fr, "reflect: indirection through nil pointer to embedded struct")
+				}
+				v = RValue{T: v.T.Underlying().(*types.Pointer).Elem(), V: copyVal(*pv), Valid: true, Addr: pv, RO: v.RO}
+			}
+		}
+		v = m.rvField(fr, v, i, "FieldByIndex")
+	}
+	return v
+}
+
 func hRVIsNil(m *Machine, fr *frame, fn *ssa.Function, a []Value) Value {
 	v := a[0].(RValue)
 	if !v.Valid {
@@ -585,6 +694,46 @@ func (m *Machine) callRTypeMethod(fr *frame, f *rtypeMethod, args []Value) Value
 			return m.rtypeIface(u.Elem())
 		}
 		m.reflectPanic(fr, "reflect: Elem of invalid type %s", f.t.T)
+	}
+	switch f.name {
+	case "NumField":
+		if st, ok := f.t.T.Underlying().(*types.Struct); ok {
+			return m.C.BVC(uint64(st.NumFields()), 64)
+		}
+		m.reflectPanic(fr, "reflect: NumField of non-struct type %s", f.t.T)
+	case "FieldByName", "Field":
+		st, ok := f.t.T.Underlying().(*types.Struct)
+		if !ok {
+			m.reflectPanic(fr, "reflect: %s of non-struct type %s", f.name, f.t.T)
+		}
+		sfT := m.P.Pkgs["reflect"].Type("StructField").Type()
+		mk := func(i int) Value {
+			fld := st.Field(i)
+			sf := m.zero(sfT).(Struct)
+			m.setField(sf, sfT, "Name", fld.Name())
+			m.setField(sf, sfT, "Type", m.rtypeIface(fld.Type()))
+			m.setField(sf, sfT, "Anonymous", m.C.BoolC(fld.Embedded()))
+			if !fld.Exported() && fld.Pkg() != nil {
+				m.setField(sf, sfT, "PkgPath", fld.Pkg().Path())
+			}
+			arr := &ArrObj{ID: m.newID(), Elems: []Value{m.C.BVC(uint64(i), 64)}}
+			m.setField(sf, sfT, "Index", Slice{Arr: arr, Off: 0, Len: 1, Cap: 1})
+			return sf
+		}
+		if f.name == "Field" {
+			i := int(m.concretize(args[0].(T), true))
+			if i < 0 || i >= st.NumFields() {
+				m.reflectPanic(fr, "reflect: Field index out of bounds")
+			}
+			return mk(i)
+		}
+		name := m.concStr(args[0])
+		for i := 0; i < st.NumFields(); i++ {
+			if st.Field(i).Name() == name {
+				return Tuple{mk(i), m.C.BoolC(true)}
+			}
+		}
+		return Tuple{m.zero(sfT), m.C.BoolC(false)}
 	}
 	m.engineErr("reflect.Type method %s not modelled", f.name)
 	return nil
@@ -817,6 +966,80 @@ func hOnceDo(m *Machine, fr *frame, fn *ssa.Function, a []Value) Value {
 	}
 	m.onces[p] = true
 	m.call(a[1], nil, fr, 0)
+	return nil
+}
+
+// sync.Map: entries in insertion order; keys compared with Go's interface equality (forking when symbolic).
+type syncMapEntry struct{ k, v Value }
+
+func hSyncMap(m *Machine, fr *frame, fn *ssa.Function, a []Value) Value {
+	m.yield("atomic")
+	p := a[0].(*Value)
+	if p == nil {
+		m.runtimePanic(fr, "invalid memory address or nil pointer dereference (nil *sync.Map)")
+	}
+	if m.syncMaps == nil {
+		m.syncMaps = map[*Value][]syncMapEntry{}
+	}
+	find := func(k Value) int {
+		m.checkHashable(fr, k)
+		for i, e := range m.syncMaps[p] {
+			if m.keyEq(fr, e.k, k) {
+				return i
+			}
+		}
+		return -1
+	}
+	nilAny := Value(Iface{})
+	switch fn.Name() {
+	case "Load":
+		if i := find(a[1]); i >= 0 {
+			return Tuple{copyVal(m.syncMaps[p][i].v), m.C.BoolC(true)}
+		}
+		return Tuple{nilAny, m.C.BoolC(false)}
+	case "Store":
+		if i := find(a[1]); i >= 0 {
+			m.syncMaps[p][i].v = copyVal(a[2])
+		} else {
+			m.syncMaps[p] = append(m.syncMaps[p], syncMapEntry{copyVal(a[1]), copyVal(a[2])})
+		}
+		return nil
+	case "Swap":
+		if i := find(a[1]); i >= 0 {
+			old := m.syncMaps[p][i].v
+			m.syncMaps[p][i].v = copyVal(a[2])
+			return Tuple{old, m.C.BoolC(true)}
+		}
+		m.syncMaps[p] = append(m.syncMaps[p], syncMapEntry{copyVal(a[1]), copyVal(a[2])})
+		return Tuple{nilAny, m.C.BoolC(false)}
+	case "LoadOrStore":
+		if i := find(a[1]); i >= 0 {
+			return Tuple{copyVal(m.syncMaps[p][i].v), m.C.BoolC(true)}
+		}
+		m.syncMaps[p] = append(m.syncMaps[p], syncMapEntry{copyVal(a[1]), copyVal(a[2])})
+		return Tuple{copyVal(a[2]), m.C.BoolC(false)}
+	case "LoadAndDelete", "Delete":
+		i := find(a[1])
+		var old Value = nilAny
+		if i >= 0 {
+			old = m.syncMaps[p][i].v
+			es := m.syncMaps[p]
+			m.syncMaps[p] = append(append([]syncMapEntry{}, es[:i]...), es[i+1:]...)
+		}
+		if fn.Name() == "Delete" {
+			return nil
+		}
+		return Tuple{old, m.C.BoolC(i >= 0)}
+	case "Range":
+		for _, e := range append([]syncMapEntry{}, m.syncMaps[p]...) {
+			r := m.call(a[1], []Value{copyVal(e.k), copyVal(e.v)}, fr, 0)
+			if !m.branch(r.(T)) {
+				break
+			}
+		}
+		return nil
+	}
+	m.engineErr("sync.Map.%s not modelled", fn.Name())
 	return nil
 }
 
